@@ -35,6 +35,7 @@
 From Coq Require Import List String Bool ZArith Permutation.
 From Verif Require Import Codec.Schema Codec.Value Codec.Xml Codec.Wf Codec.Scan Codec.ProofsAttr Codec.ProofsKids
      Codec.ProofsRT C04.Roundtrip C03.Spec C03.Proofs C03.Noise C03.Faithful.
+Require Verif.C03.Check.
 From VerifGen Require Import GenSchema.
 Import ListNotations.
 Open Scope string_scope.
@@ -101,6 +102,17 @@ Theorem noise_invisible_to_scanner : forall sch unknown e e',
   scan_el sch e' = scan_el sch e.
 Proof. intros sch unknown e e' Hc Hk. exact (proj1 (noise_scan sch unknown Hc Hk) e e'). Qed.
 Print Assumptions noise_invisible_to_scanner.
+
+(* --- Scanner.Close (wave 5): the objects yielded before Close are a prefix of the document's
+       objects, at most as many as asked for --- *)
+Theorem scan_then_close_is_prefix : forall doc k,
+  exists rest, fst (scan_el gen_schema doc) = Verif.C03.Check.scan_then_close doc k ++ rest
+               /\ (List.length (Verif.C03.Check.scan_then_close doc k) <= k)%nat.
+Proof.
+  intros doc k. exists (skipn k (fst (scan_el gen_schema doc))). unfold Verif.C03.Check.scan_then_close.
+  split; [symmetry; apply firstn_skipn | apply firstn_le_length].
+Qed.
+Print Assumptions scan_then_close_is_prefix.
 
 (* --- attribute order: any permutation of attributes with pairwise different names decodes to
        the same fields --- *)
